@@ -1,6 +1,71 @@
-(* Props/C02.v — property theorems only (in progress). *)
+(* Props/C02.v — property theorems only; proofs in Proofs/C02Prefix.v, Proofs/C02Messages.v. *)
 From Coq Require Import List NArith.
-From Cedar Require Import Lib.Bytes Lib.Sym Model.Frame.
-Theorem C02_open_only_seal : forall k n a c p, open k n a c = Some p -> c = seal k n a p.
-Proof. exact open_only_seal. Qed.
-Print Assumptions C02_open_only_seal.
+From Cedar Require Import Lib.Bytes Lib.Sym gen.Consts Model.Frame Model.FrameSpec
+     Proofs.FrameBase Proofs.C12Nonce Proofs.C02Prefix Proofs.C02Messages.
+Import ListNotations.
+Local Open Scope N_scope.
+
+(* On an AES-GCM protected stream, whatever frame sequence fs' an on-path party hands to the
+   receiver (edited, injected incl. empty frames, dropped, duplicated, reordered, replayed,
+   truncated: fs' is ARBITRARY, built from raw bytes and from ciphertexts the sender produced
+   in this direction), the messages delivered before the first error, through
+   ReceiveCompleteMessage or the Message-layer reader, are an in-order, byte-identical prefix
+   of the messages of the sender's history h, with the boundaries intact; an incomplete
+   trailing message is never delivered. *)
+Theorem C02_prefix :
+  forall api, api = ApiComplete \/ api = ApiMessage ->
+  forall (h : list msg) (A B A1 : stream) (fs fs' : list frame) (k : bytes) (K : ctext -> Prop) (n : nat),
+    duplex A B -> key A = Some k -> encrypted A = true -> wf_send A ->
+    send_all A h = (A1, SOk fs) ->
+    known_ok k (enc_iv A) (enc_ctr A) fs K -> uses_only K fs' ->
+    prefix (snd (fst (fst (recv_upto api B n fs')))) (map payload_of h).
+Proof. exact delivered_is_prefix. Qed.
+Print Assumptions C02_prefix.
+
+(* Frame level: the (payload, end flag) pairs accepted before the first rejection are a
+   prefix of what the sender sent. *)
+Theorem C02_frames_prefix :
+  forall (fs' : list frame) (A B : stream) (k : bytes) (K : ctext -> Prop)
+         (tr : list (bytes * N)) (fs : list frame) (A' : stream),
+    duplex A B -> key A = Some k -> encrypted A = true -> wf_send A ->
+    sent A tr fs A' -> known_ok k (enc_iv A) (enc_ctr A) fs K -> uses_only K fs' ->
+    prefix (snd (recv_frames B fs')) tr.
+Proof. exact prefix_frames. Qed.
+Print Assumptions C02_frames_prefix.
+
+(* Detection: the frames accepted are a prefix of the genuine wire itself; the first frame
+   that is not the genuine frame of its position is rejected (error at or before the first
+   affected message). *)
+Theorem C02_detect :
+  forall (fs' : list frame) (A B : stream) (k : bytes) (K : ctext -> Prop)
+         (tr : list (bytes * N)) (fs : list frame) (A' : stream),
+    duplex A B -> key A = Some k -> encrypted A = true -> wf_send A ->
+    sent A tr fs A' -> known_ok k (enc_iv A) (enc_ctr A) fs K -> uses_only K fs' ->
+    prefix (accepted B fs') fs.
+Proof. exact accepted_prefix_of_wire. Qed.
+Print Assumptions C02_detect.
+
+(* In particular a zero-length frame is never accepted on an encrypting stream. *)
+Theorem C02_no_empty_frame :
+  forall (B : stream) (fl : N), enc_active B = true ->
+    exists e, snd (recv_frame_we B {| f_flag := fl; f_body := Raw [] |}) = SErr e.
+Proof.
+  intros B fl H. unfold recv_frame_we, recv_frame_gen. cbn [f_flag f_body body_len].
+  destruct (max_wire B <? lenN []); [eexists; reflexivity|].
+  destruct (FlagMaxRecvWE <? fl); [eexists; reflexivity|].
+  change (lenN [] =? 0) with true. cbv iota. rewrite H. eexists; reflexivity.
+Qed.
+Print Assumptions C02_no_empty_frame.
+
+(* non-vacuity: two freshly keyed ends satisfy every hypothesis *)
+Example C02_hypotheses_satisfiable :
+  exists A B k, duplex A B /\ key A = Some k /\ encrypted A = true /\ wf_send A.
+Proof.
+  set (k := repeat x01 32).
+  destruct (set_key new_stream k (repeat x07 16)) as [A|] eqn:EA; [|discriminate].
+  destruct (set_key new_stream k (repeat x09 16)) as [B|] eqn:EB; [|discriminate].
+  exists A, B, k. vm_compute in EA, EB. injection EA as <-. injection EB as <-.
+  split; [split; constructor; try reflexivity; intro H; inversion H|].
+  split; [reflexivity|]. split; [reflexivity|].
+  split; [split; intro; reflexivity|]. vm_compute. discriminate.
+Qed.
